@@ -55,7 +55,7 @@ func (c *Conversation) appendWhitespaceTag(message []byte) []byte {
 
 // By the spec "this tag may occur anywhere in the message"
 func extractWhitespaceTag(message ValidMessage) (plain MessagePlaintext, versions int) {
-	wsPos := bytes.Index(message, whitespaceTagHeader)
+	wsPos := bytes.LastIndex(message, whitespaceTagHeader)
 	currentData := message[wsPos+len(whitespaceTagHeader):]
 
 	for {
